@@ -79,7 +79,11 @@ class Ctx:
     def identity(self, rule, construct, where, what, lhs, rhs, **detail):
         """lhs == rhs as exact normal forms."""
         d = nf.sub(lhs, rhs)
-        res = nf.clear_denominators(d)
+        nf.budget(2_000_000)
+        try:
+            res = nf.clear_denominators(d)
+        finally:
+            nf.budget(None)
         det = dict(detail)
         det["lhs"] = nf.show(lhs, 500)
         det["rhs"] = nf.show(rhs, 500)
